@@ -106,6 +106,13 @@ CLAIMED['C18'] = dict(design='2/C18', text='mps::to_mps::write_mps is executed f
     'denotations and equality kinds under the same ids and the same effective domain for every used variable; repeated ids inside one function; nonlinear objective/constraint refused naming the offender.',
     note='f64 Display/FromStr round trip assumed (numbers travel as tokens); lexing modelled; two defects found and repaired by fix: commits (no bounds written for variables without bound; '
     'repeated ids written as duplicate COLUMNS entries).')
+CLAIMED['C19'] = dict(design='2/C19', text='QplibFile::from_lines (FileCursor helpers and their closures, generic over the item types; type parameters are bound from the call sites), '
+    'ProblemType/ObjSense/VarType::from_str, integer_to_binary, apply_infinity_threshold and qplib::convert::* are executed from MIR on files rendered by an independent writer for 9 (quick) / '
+    'all 120 (thorough) problem-type codes with symbolic numbers: z3 proves objective = 1/2 x\'Q0x + b0\'x + q0 (symmetric Q from its lower triangle, default and non-default b0), sense, '
+    'variable kinds/bounds/names (magnitudes at the infinity value = unbounded), one <=0 constraint per finite side with the right signs; malformed type/sense/variable-type codes, '
+    'non-numbers, premature EOF and oversized counts are reported as errors.',
+    note='Lexing modelled as in C17; 2 variables x 2 constraints (property: 5 x 4); one defect repaired by a fix: commit (diagonal of Q not halved); three panics on malformed index/value '
+    'tokens are recorded as known findings and printed as KNOWN-FINDING.')
 NOT_APPLICABLE = {
     'C20': 'artifact round-trip lives in ocipkg/tar/sha2/serde_json/chrono and the file system: none of it is in the crate MIR and all of it is foreign/IO under Kani; a model would verify the model, not the code',
 }
